@@ -279,7 +279,7 @@ func parentMain(args []string) int {
 	}
 	close(queue)
 	var wg sync.WaitGroup
-	engineErr := make(chan string, nw*4)
+	engineErr := make(chan string, len(units)*50+100)
 	for i := 0; i < nw; i++ {
 		wg.Add(1)
 		go func() {
